@@ -43,29 +43,37 @@ func cliConfigMatrix(t *testing.T, rec *stats.Rec, cli string, perLint int, only
 			{NameFilter: &re}, {ExcludeSources: []string{"ETSI_ESI"}}}
 		alt := altDocs[name]
 		empty := ""
+		// a section that cannot be applied: the lint's result is fatal - alone above pass when the lint is selected alone
+		ill := name + " = 5\n"
 		for _, o := range objs {
 			if o.Kind == gen.OCSP {
 				continue // the CLI reads certificates and CRLs
 			}
 			for fi, f := range filters {
-				for ci, cfg := range []*string{&alt, &empty, nil} {
-					k++
-					if !stats.Mine(k) {
-						continue
-					}
-					c := c15Case{Inputs: []c15Input{{Kind: o.Kind, DER: o.DER, Encoding: "pem", Delivery: "file", Base: o.Name}}, Filter: f, Config: cfg, Format: "pem", Output: "default"}
-					dir, err := os.MkdirTemp("", "verif-clicfg-")
-					if err != nil {
-						continue
-					}
-					sig, msg := judgeC15(rec, c, cli, dir)
-					os.RemoveAll(dir)
-					rec.Eval()
-					rec.Class("cli_config_matrix")
-					rec.NT(stats.HashS("clicfg", name, o.Name, fmt.Sprint(fi, ci)))
-					if msg != "" {
-						if rec.Report("c15", "cli-config|"+name+"|"+sig, msg, c) {
-							t.Fatalf("CLI -config with selection variant %d on %s: %s: %s", fi, o.Name, sig, msg)
+				for ci, cfg := range []*string{&alt, &empty, nil, &ill} {
+					for oi, output := range []string{"default", "summary", "longSummary"} {
+						// the summary tables: with the ill-typed section under every selection, otherwise when the lint runs alone
+						if oi > 0 && ci != 3 && fi != 1 {
+							continue
+						}
+						k++
+						if !stats.Mine(k) {
+							continue
+						}
+						c := c15Case{Inputs: []c15Input{{Kind: o.Kind, DER: o.DER, Encoding: "pem", Delivery: "file", Base: o.Name}}, Filter: f, Config: cfg, Format: "pem", Output: output}
+						dir, err := os.MkdirTemp("", "verif-clicfg-")
+						if err != nil {
+							continue
+						}
+						sig, msg := judgeC15(rec, c, cli, dir)
+						os.RemoveAll(dir)
+						rec.Eval()
+						rec.Class("cli_config_matrix")
+						rec.NT(stats.HashS("clicfg", name, o.Name, fmt.Sprint(fi, ci, oi)))
+						if msg != "" {
+							if rec.Report("c15", "cli-config|"+name+"|"+sig, msg, c) {
+								t.Fatalf("CLI -config with selection variant %d, output %s on %s: %s: %s", fi, output, o.Name, sig, msg)
+							}
 						}
 					}
 				}
